@@ -948,7 +948,19 @@ def generate(rng: random.Random, profile: Optional[Dict[str, Any]] = None) -> Di
     text_ops: List[int] = []
 
     def pick_x() -> str:
-        return rng.choice(focus) if rng.random() < 0.85 else gen.pick_input(rng, corpus)
+        x = rng.choice(focus) if rng.random() < 0.85 else gen.pick_input(rng, corpus)
+        if rng.random() < 0.08:
+            # the same code as an indented fragment (format_code accepts those): nothing learnt from it may be
+            # applied to the flush-left text, and the other way round
+            import textwrap
+
+            xi = textwrap.indent(x, "    ")
+            try:
+                ast.parse(textwrap.dedent(xi))
+                return xi
+            except (SyntaxError, ValueError):
+                return x
+        return x
 
     while len(ops) < n_ops:
         k = rng.choices(kinds, weights)[0]
